@@ -55,12 +55,10 @@ func runOne(srvs []*proj.Server, pr *kit.Prepared, c kit.Case, p *plan.Plan, npa
 		e := univ.NewExec(p)
 		ctx, cancel := context.WithCancel(context.Background())
 		done := make(chan *proj.Response, 1)
-		defRec := c.DefaultRecover
-		go func() {
-			s.DefaultRecover = defRec
-			defer func() { s.DefaultRecover = false }()
-			done <- s.Do(ctx, e, c.Query, c.OpName, c.Variables)
-		}()
+		// set before the operation starts and left alone while it runs (an operation that outlives
+		// its verdict must not flip it under the next one)
+		s.DefaultRecover = c.DefaultRecover
+		go func() { done <- s.Do(ctx, e, c.Query, c.OpName, c.Variables) }()
 		var resp *proj.Response
 		select {
 		case resp = <-done:
